@@ -120,7 +120,6 @@ func (dr *DialogueRunner) Next(choice int) (*DialogueElement, error) {
 		return dr.Next(choice)
 	}
 
-	dr.lastStatement = nextStatement
 	switch {
 	case nextStatement.LineStatement != nil:
 		markupResult, err := dr.textElementsToMarkup(nextStatement.LineStatement.Text.Elements)
@@ -159,6 +158,7 @@ func (dr *DialogueRunner) Next(choice int) (*DialogueElement, error) {
 				Disabled: disabled,
 			})
 		}
+		dr.lastStatement = nextStatement // a choice is pending only once the options have been handed out
 		return &DialogueElement{
 			Node:    dr.currentNode,
 			Options: options,
